@@ -164,3 +164,135 @@ Proof.
   revert i. induction l as [|x r IH]; intros [|i] H; cbn in *; try lia.
   rewrite IH by lia. destruct r; cbn in *; lia.
 Qed.
+
+(* ---- recursively=True: emptied dictionary ancestors are pruned ---------------------------------------- *)
+(* Spec: walking up the token-boundary prefixes of the path, an ancestor that is an empty dictionary at that
+   moment is removed *)
+Definition prune_step (t : tree) (q : path) : tree :=
+  match resolve t q with Some (Dict _ []) => delete_at t q | _ => t end.
+Definition prune_list (t : tree) (qs : list path) : tree := fold_left prune_step qs t.
+
+Ltac unify_eqs :=
+  repeat match goal with
+         | H1 : ?a = Ok _, H2 : ?a = Ok _ |- _ => rewrite H1 in H2; inversion H2; subst; clear H2
+         | H1 : ?a = Some _, H2 : ?a = Some _ |- _ => rewrite H1 in H2; inversion H2; subst; clear H2
+         | H1 : ?a = EvInt _, H2 : ?a = EvInt _ |- _ => rewrite H1 in H2; inversion H2; subst; clear H2
+         end.
+
+Lemma walk_fun : forall t toks p v, walk t toks p v -> forall p' v', walk t toks p' v' -> p = p' /\ v = v'.
+Proof.
+  induction 1 as [t|x toks c kvs k child p v Hs Hk Hl Hw IH
+                  |x toks c items si z i child p v Hs Hi He Hn Hc Hw IH
+                  |x toks c kvs k si c' items z i child p v Hs Hk Hi Hb He Hl Hn Hc Hw IH]; intros p' v' H2.
+  - inversion H2; subst. auto.
+  - clear Hw. inversion H2; subst; try congruence. unify_eqs.
+    match goal with H : walk _ _ _ _ |- _ => destruct (IH _ _ H) as [-> ->] end. auto.
+  - clear Hw. inversion H2; subst; try congruence. unify_eqs.
+    match goal with H : walk _ _ _ _ |- _ => destruct (IH _ _ H) as [-> ->] end. auto.
+  - clear Hw. inversion H2; subst; try congruence. unify_eqs.
+    match goal with H : walk _ _ _ _ |- _ => destruct (IH _ _ H) as [-> ->] end. auto.
+Qed.
+
+Lemma walk_after_delete_below t toks q v' r :
+  walk t toks q v' -> r <> [] -> walk (delete_at t (q ++ r)) toks q (delete_at v' r).
+Proof.
+  intros Hw Hr. rewrite (delete_at_app t q r v' Hr (walk_resolve _ _ _ _ Hw)).
+  exact (walk_replace_endpoint _ _ _ _ Hw _).
+Qed.
+
+Section recursive.
+Variable root : tree.
+Variable toks : list pstr.
+Variable fuel : nat.
+Hypothesis Hfuel : 2 * length toks <= fuel.
+
+(* the path of the token prefix of length k, as determined in the original tree *)
+Definition Q (k : nat) (q : path) : Prop := exists v', walk root (firstn k toks) q v'.
+
+Definition inv (t : tree) (l : nat) : Prop :=
+  forall k, 0 < k -> k <= l -> exists q v', Q k q /\ walk t (firstn k toks) q v'.
+
+Lemma inv_after_delete t l q vq :
+  S l <= length toks -> inv t (S l) -> Q (S l) q -> walk t (firstn (S l) toks) q vq ->
+  inv (delete_at t q) l.
+Proof.
+  intros Hlen Hinv HQ Hw k Hk0 Hkl.
+  destruct (Hinv k Hk0 ltac:(lia)) as [qk [vk [HQk Hwk]]].
+  (* qk is a proper prefix of q: cut the longer walk at k *)
+  destruct (walk_split _ _ _ _ Hw k) as [q' [r [v'' [H1 [H2 [H3 H4]]]]]].
+  { rewrite firstn_length. lia. }
+  rewrite firstn_firstn in H1. replace (Nat.min k (S l)) with k in H1 by lia.
+  destruct (walk_fun _ _ _ _ Hwk _ _ H1) as [-> ->].
+  exists q', (delete_at v'' r). split; [exact HQk|]. subst q. now apply walk_after_delete_below.
+Qed.
+
+Lemma delete_loop_recursive : forall l t,
+  l < length toks -> inv t l ->
+  exists qs, Forall2 Q (rev (seq 1 l)) qs /\
+             delete_loop fuel t toks true l false = (prune_list t qs, None).
+Proof.
+  induction l as [|l IH]; intros t Hl Hinv.
+  - exists []. split; [constructor|reflexivity].
+  - destruct (Hinv (S l) ltac:(lia) (le_n _)) as [q [vq [HQ Hw]]].
+    assert (Hne : firstn (S l) toks <> []).
+    { destruct toks; [cbn in Hl; lia|cbn; congruence]. }
+    destruct (find_walk true t (firstn (S l) toks) q vq Hw Hne fuel t [] s_root) as [F [HF Hat]].
+    { rewrite firstn_length. lia. }
+    cbn [delete_loop]. rewrite HF. cbn [orb andb].
+    assert (Hval : f_val F = Some vq) by (destruct Hat as [? [? [? [_ [_ [_ [_ [_ [Hv _]]]]]]]]]; exact Hv).
+    rewrite Hval.
+    assert (Hseq : rev (seq 1 (S l)) = S l :: rev (seq 1 l)).
+    { rewrite seq_S, rev_app_distr. reflexivity. }
+    destruct vq as [sc|c [|kv kvs]|c xs].
+    + destruct (IH t ltac:(lia)) as [qs [HF2 Hres]]; [intros k H1 H2; apply Hinv; lia|].
+      exists (q :: qs). split; [rewrite Hseq; constructor; assumption|].
+      rewrite Hres. unfold prune_list at 2. cbn [fold_left]. unfold prune_step at 2.
+      now rewrite (walk_resolve _ _ _ _ Hw).
+    + (* an empty dictionary: it is deleted *)
+      rewrite (del_slot_found t t [] q _ F eq_refl Hat). cbn [app].
+      destruct (IH (delete_at t q) ltac:(lia)) as [qs [HF2 Hres]].
+      { eapply inv_after_delete; eauto. lia. }
+      exists (q :: qs). split; [rewrite Hseq; constructor; assumption|].
+      rewrite Hres. unfold prune_list at 2. cbn [fold_left]. unfold prune_step at 2.
+      now rewrite (walk_resolve _ _ _ _ Hw).
+    + destruct (IH t ltac:(lia)) as [qs [HF2 Hres]]; [intros k H1 H2; apply Hinv; lia|].
+      exists (q :: qs). split; [rewrite Hseq; constructor; assumption|].
+      rewrite Hres. unfold prune_list at 2. cbn [fold_left]. unfold prune_step at 2.
+      now rewrite (walk_resolve _ _ _ _ Hw).
+    + destruct (IH t ltac:(lia)) as [qs [HF2 Hres]]; [intros k H1 H2; apply Hinv; lia|].
+      exists (q :: qs). split; [rewrite Hseq; constructor; assumption|].
+      rewrite Hres. unfold prune_list at 2. cbn [fold_left]. unfold prune_step at 2.
+      now rewrite (walk_resolve _ _ _ _ Hw).
+Qed.
+End recursive.
+
+Theorem delete_recursive_walk fuel root x p u :
+  tokenize x <> [] -> walk root (tokenize x) p u -> 2 * length (tokenize x) <= fuel ->
+  exists qs,
+    Forall2 (Q root (tokenize x)) (rev (seq 1 (length (tokenize x) - 1))) qs /\
+    delete fuel root x true = (prune_list (delete_at root p) qs, None).
+Proof.
+  intros Hne Hw Hf. unfold delete.
+  destruct (tokenize x) as [|t0 toks0] eqn:Et; [congruence|]. rewrite <- Et in *.
+  assert (Hlen : length (tokenize x) = S (length toks0)) by (rewrite Et; reflexivity).
+  rewrite Hlen. cbn [delete_loop]. rewrite <- Hlen, firstn_all.
+  destruct (find_walk true root (tokenize x) p u Hw Hne fuel root [] s_root Hf) as [F [HF Hat]].
+  rewrite HF. cbn [orb].
+  rewrite (del_slot_found root root [] p u F eq_refl Hat). cbn [app].
+  replace (length (tokenize x) - 1) with (length toks0) by lia.
+  apply (delete_loop_recursive root (tokenize x) fuel Hf (length toks0) (delete_at root p)); [lia|].
+  intros k Hk0 Hkl.
+  destruct (walk_split root (tokenize x) p u Hw k ltac:(lia)) as [q [r [v' [H1 [H2 [H3 H4]]]]]].
+  exists q, (delete_at v' r). split; [exists v'; exact H1|]. subst p. now apply walk_after_delete_below.
+Qed.
+
+(* consequence: if no token-boundary ancestor becomes an empty dictionary, recursively changes nothing *)
+Lemma prune_list_noop t qs :
+  Forall (fun q => forall c, resolve t q <> Some (Dict c [])) qs -> prune_list t qs = t.
+Proof.
+  induction 1 as [|q qs Hq Hqs IH]; [reflexivity|]. unfold prune_list. cbn [fold_left].
+  assert (E : prune_step t q = t).
+  { unfold prune_step. destruct (resolve t q) as [[s|c [|kv kvs]|c xs]|] eqn:Er; try reflexivity.
+    exfalso. exact (Hq c eq_refl). }
+  rewrite E. exact IH.
+Qed.
